@@ -35,7 +35,8 @@
 
    PART 2 (the other cache_ theorems) are the earlier theorems about models/CacheLive.v, a coarser hand-written
    abstraction of the same protocol (keys, values, time erased); kept unchanged. *)
-From Got Require Import Base Cache CacheSteps CacheLiveSteps CacheLiveStepsProofs CacheLive CacheLiveProofs.
+From Got Require Import Base Cache CacheSteps CacheLiveSteps CacheLiveStepsProofs CacheLive CacheLiveProofs CacheDrop CacheDropProofs.
+From Coq Require Import Permutation.
 Local Open Scope nat_scope.
 
 (* ------------------------------------------------------------------ PART 1: the step model *)
@@ -160,3 +161,34 @@ Example c06_nonvacuous :
                     LWorker 0 false]) = Some true /\
   cl_measure cfg s0 = 15.
 Proof. vm_compute. split; reflexivity. Qed.
+
+
+(* ---------------------------------------------------------------- a cache that is closed (dropped by its owner) while jobs are outstanding *)
+
+(* models/CacheDrop.v: the job channel, closeChan, the workers' select, sendJob's two selects and
+   runQueuedJobs (fix 2b5acec), loaders atomic.  For every capacity, every number >= 1 of workers, every list
+   of submitted jobs and every history (the close at any point, any branch choices): no job is lost or run
+   twice (executed ++ queued ++ not yet submitted is always a permutation of the jobs), and when every sender
+   has returned and every worker has left, the channel is empty and every job has been executed exactly once --
+   so every Future handed out resolves although nobody consumes the channel any more. *)
+Theorem cache_drop_all_jobs_run_once :
+  forall cap n jobs evs, (0 < n)%nat ->
+    let s := cd_run CdFixed (cd_init cap n jobs) evs in
+    Permutation (cd_ran s ++ cd_chan s ++ cd_pending s) jobs /\
+    (cd_quiescent s = true -> cd_chan s = [] /\ Permutation (cd_ran s) jobs).
+Proof. exact cd_all_jobs_run_once. Qed.
+Print Assumptions cache_drop_all_jobs_run_once.
+
+(* the code before 2b5acec (workers just return at the close, sendJob drops the job when it finds the cache
+   closed): one job queued when the cache is closed and one sender arriving afterwards: everybody is done and
+   nothing was executed; the same history on the fixed code executes both *)
+Theorem cache_drop_orig_refuted :
+  let s := cd_run CdOrig (cd_init 1 1 [1; 2]%nat) [CdSender 0 true; CdClose; CdWorker 0 false; CdSender 1 false] in
+  cd_quiescent s = true /\ cd_ran s = [] /\ cd_chan s = [1%nat].
+Proof. exact cd_orig_refuted. Qed.
+Print Assumptions cache_drop_orig_refuted.
+
+Example cache_drop_nonvacuous :
+  let s := cd_run CdFixed (cd_init 1 1 [1; 2]%nat) [CdSender 0 true; CdClose; CdWorker 0 false; CdSender 1 false; CdSender 0 true] in
+  cd_quiescent s = true /\ cd_ran s = [1; 2]%nat /\ cd_chan s = [].
+Proof. exact cd_fixed_same_history. Qed.
